@@ -27,6 +27,19 @@ CHECKS["C04"] = dict(level="exploration", design="4/C04", engine="module-generat
     technique="metamorphic property-based testing: same token sequence under canonical vs drawn layouts (+CRLF), byte comparison",
     text="Each module AST is rendered in the canonical layout and 1-3 random layouts (whitespace, all comment shapes incl. code/delimiter look-alikes, comments inside argument lists and between doccomment and command, doc block re-indentation with spaces/tabs, per-occurrence command casing, missing final newline) and as CRLF; outputs must be byte-identical (CRLF: modulo CR and whitespace-only lines).",
     note=GEN_NOTE + "Two layouts share the token sequence by construction (same AST, same argument strings).")
+MODEL_NOTE = GEN_NOTE + "Trusts the reference model (vlib/model.py) and the indentation parser (vlib/rstview.py); doc texts are benign."
+CHECKS["C09"] = dict(level="exploration", design="4/C09", engine="module-generator-and-model",
+    technique="property-based testing: generated class forests x member strip patterns, reference model vs nested line view",
+    text="Generated class forests (siblings, nesting to depth 3-5, attributes/members/constructors in any order, implementations that are functions or macros with bodies, documented or not, commands between and after classes) under drawn member strip patterns; member placement, order, inner-class lists, method parameters, :type pairs, macro notes, :value: and bases must equal the reference model.",
+    note=MODEL_NOTE)
+CHECKS["C10"] = dict(level="exploration", design="4/C10", engine="module-generator-and-model",
+    technique="property-based testing: generated set()/option() commands in every argument form, reference model vs raw field lines",
+    text="set() with 0..5 values in every single-argument form (incl. empty string, escaped quotes, brackets, single characters, unquoted values ending in an escaped quote) and option() with/without default, documented or not, anywhere in a module; name, type by value count, default as written, option note/help/default/bool are compared with the model on the raw line view.",
+    note=MODEL_NOTE)
+CHECKS["C11"] = dict(level="exploration", design="4/C11", engine="module-generator-and-model",
+    technique="property-based testing: generated ct_add_test/ct_add_section/add_test argument lists and section nesting, reference model",
+    text="Test commands with NAME at any position, EXPECTFAIL before/after NAME, arguments equal to the name or containing keyword substrings, names in all argument forms, sections nested to depth 3-4 in function or macro implementations; name, EXPECTFAIL flag, add_test signature (all arguments but the NAME pair, in order), warning class and entry order must equal the model.",
+    note=MODEL_NOTE)
 NOT_APPLICABLE = [
 ]
 
